@@ -39,3 +39,35 @@ def Scalar2 {T : Type} (f : T → T → T) (ok : T → Prop) (op : T → T → E
   ∀ x y, ok y → op x y = pure (f x y)
 
 end Cfavml
+
+namespace Cfavml
+
+/-- broadcasts fill every lane -/
+structure BroadcastFaithful {T Reg : Type} (R : SimdRegister T Reg) (L : Nat) (lanes : Reg → Nat → T) : Prop where
+  filled_ok : ∀ v, ∃ r, R.filled v = pure r ∧ ∀ k, k < L → lanes r k = v
+  filled_dense_ok : ∀ v, ∃ d, R.filled_dense v = pure d ∧ (∀ k, k < L * 8 → dlanes L lanes d k = v)
+    ∧ (∀ k, k < L → lanes d.a k = v)
+
+end Cfavml
+
+namespace Cfavml
+
+/-- a ternary register operation (`fmadd`) acts lane by lane like the scalar function `f` -/
+structure Lanewise3 {T Reg : Type} (L : Nat) (lanes : Reg → Nat → T) (f : T → T → T → T)
+    (op : Reg → Reg → Reg → Exec Reg)
+    (opDense : DenseLane Reg → DenseLane Reg → DenseLane Reg → Exec (DenseLane Reg)) : Prop where
+  single : ∀ x y z, ∃ r, op x y z = pure r ∧ ∀ k, k < L → lanes r k = f (lanes x k) (lanes y k) (lanes z k)
+  dense : ∀ x y z, ∃ d, opDense x y z = pure d
+    ∧ ∀ k, k < L * 8 → dlanes L lanes d k = f (dlanes L lanes x k) (dlanes L lanes y k) (dlanes L lanes z k)
+
+/-- the roll-up of a dense accumulator and the horizontal fold of a register, for one combining
+operation `op` (add / max / min): lane `k` of the roll-up is the `tree8` of lane `k` of the eight
+registers; the horizontal fold is `hfold` of the lanes. -/
+structure FoldFaithful {T Reg : Type} (L : Nat) (lanes : Reg → Nat → T) (op : T → T → T)
+    (hfold : (Nat → T) → T) (toReg : DenseLane Reg → Exec Reg) (toValue : Reg → Exec T) : Prop where
+  to_register : ∀ d, ∃ r, toReg d = pure r ∧
+    ∀ k, k < L → lanes r k = op (op (op (lanes d.a k) (lanes d.b k)) (op (lanes d.c k) (lanes d.d k)))
+      (op (op (lanes d.e k) (lanes d.f k)) (op (lanes d.g k) (lanes d.h k)))
+  to_value : ∀ r, toValue r = pure (hfold (lanes r))
+
+end Cfavml
